@@ -1,2 +1,54 @@
-From TV Require Import Base.
-Example C17_placeholder : True. Proof. exact I. Qed.
+(* C17 -- configuration files build exactly the simulation they describe.
+   The logic of the tagged-union registry (dispatch by type tag, cache of the discriminated
+   union), of the wiring handed to the scheduler and of the component selection.  YAML parsing,
+   importlib and pydantic's field validation are oracles: the values of fields and the dump/load
+   round trip are validated by the correspondence run only.  Property theorems only. *)
+From TV Require Import Base Model.Wiring Model.Config Proofs.WiringP Proofs.ConfigP.
+
+(* an entry is built as exactly the class its tag names -- never another class whose fields
+   happen to fit -- provided that class is registered; a tag naming no registered class (or no
+   importable class at all) is rejected *)
+Theorem C17_dispatch : forall r tag known,
+  snd (validate r tag known) = if known && memb tag (r_classes r) then Chosen tag else Rejected.
+Proof. exact validate_spec. Qed.
+
+(* for every history of class definitions (imports, in any order) and validations: the k-th
+   validated entry is built as the class named by its tag iff that class had been defined by then.
+   In particular the cached union is never stale. *)
+Theorem C17_history : forall evs init pre tag known post,
+  evs = pre ++ Validate tag known :: post ->
+  nth_error (run_reg {| r_classes := init; r_cache := None |} evs)
+            (length (filter (fun e => match e with Validate _ _ => true | _ => false end) pre)) =
+  Some (if known && memb tag (defined init pre) then Chosen tag else Rejected).
+Proof.
+  intros evs init pre tag known post E.
+  apply (run_reg_spec evs {| r_classes := init; r_cache := None |} I pre tag known post E).
+Qed.
+
+Theorem C17_cache_never_stale : forall r tag known c,
+  cache_ok r -> cache_ok (fst (validate r tag known)) /\ cache_ok (define r c).
+Proof. intros. split; [apply cache_ok_validate; assumption | apply cache_ok_define]. Qed.
+
+(* the wiring handed to the scheduler contains exactly the connections declared under inputs
+   (component names being unique) *)
+Theorem C17_wiring : forall es n ins,
+  NoDup (map fst es) -> (lookup n (wiring_of es) = Some ins <-> In (n, ins) es).
+Proof. exact wiring_of_exact. Qed.
+
+(* the simulation contains exactly the requested components, or the request is rejected *)
+Theorem C17_selection : forall es req l,
+  select es req = Some l ->
+  forall x, In x l <-> In x (map fst es) /\ match req with None => True | Some r => In x r end.
+Proof. exact select_spec. Qed.
+
+Theorem C17_selection_rejects : forall es r,
+  select es (Some r) = None <-> exists n, In n r /\ ~ In n (map fst es).
+Proof. exact select_rejects. Qed.
+
+(* non-vacuity: two classes defined late, a union built in between *)
+Example C17_example :
+  run_reg {| r_classes := [1%positive; 2%positive]; r_cache := None |}
+          [Validate 3%positive true; Validate 1%positive true; Define 3%positive; Validate 3%positive true;
+           Validate 4%positive false; Define 4%positive; Validate 2%positive true; Validate 4%positive true]
+  = [Rejected; Chosen 1%positive; Chosen 3%positive; Rejected; Chosen 2%positive; Chosen 4%positive].
+Proof. vm_compute. reflexivity. Qed.
